@@ -68,6 +68,10 @@ fn main() {
       let mut n_h = 0;
       let deadline: f64 = arg(&args, "--deadline").and_then(|s| s.parse().ok()).unwrap_or(1e9);
       let mut skipped = 0;
+      if deadline < 1e8 {
+        // hard stop inside a harness a little after the soft one between harnesses
+        ex.deadline = Some(t0 + std::time::Duration::from_secs_f64(deadline * 1.1));
+      }
       let only = arg(&args, "--only");
       for (i, h) in plan.harnesses.iter().enumerate() {
         if i % sn != si {
